@@ -40,8 +40,11 @@ int ep2_cmp(const ep2_t p, const ep2_t q) {
 	ep2_t r, s;
 	int result = RLC_NE;
 
-	if (ep2_is_infty(p) && ep2_is_infty(q)) {
-		return RLC_EQ;
+	if (ep2_is_infty(p) || ep2_is_infty(q)) {
+		/* The cross-multiplication below cannot tell the point at infinity
+		 * (stored with x = y = 0) from the affine point (0, 0), which lies on
+		 * every curve with b = 0. */
+		return (ep2_is_infty(p) && ep2_is_infty(q)) ? RLC_EQ : RLC_NE;
 	}
 
 	ep2_null(r);
